@@ -48,7 +48,9 @@ T1Levels == {"tmpl:t1", "role:t1", "grp", "root"}
 Ib1Dom == CASE Size = "core" -> {In(l, "a", v) : l \in {"tmpl:t1", "role:t1", "grp"}, v \in CoreV}
             [] Size = "mid" -> {In(l, "a", v) : l \in T1Levels, v \in CoreV}
             [] Size = "large" -> {In(l, "a", v) : l \in T1Levels, v \in MidV}
-            [] OTHER -> {In(l, "a", v) : l \in T1Levels, v \in AllV}
+            \* (an alias declared at grp/root level is claimed by every task below: fewer variants of it,
+            \*  so that the sample is not dominated by alias conflicts)
+            [] OTHER -> {In(x[1], "a", x[2]) : x \in {y \in T1Levels \X AllV : y[1] \in {"grp", "root"} /\ y[2][3] = "g" => y[2][2] = "shmem"}}
 
 Ib2Dom ==
   CASE Size = "core" ->
@@ -70,6 +72,7 @@ Ib2Dom ==
 PathA == <<"path", "t1", "a", "">>
 Targets == {PathA, <<"path", "t1", "b", "">>, <<"path", "t2", "a", "">>, <<"path", "t2", "b", "">>, <<"alias", "", "", "g">>,
             <<"alias", "", "", "h">>, <<"xtcp", "", "", "">>, <<"xipc", "", "", "">>, <<"path", "t1", "zz", "">>, <<"path", "nosuch", "a", "">>}
+BadTargets == {<<"alias", "", "", "h">>, <<"path", "t1", "zz", "">>, <<"path", "nosuch", "a", "">>}
 OutLevels == {l \in {"role:t2", "grp", "root", "role:t1", "role:t3", "tmpl:t2"} : OwnerPresent(l, topo)}
 Ob1Dom ==
   CASE Size = "core" ->
@@ -78,7 +81,9 @@ Ob1Dom ==
     [] Size = "mid" -> {Out(l, "x", t, "default") : l \in {"role:t2", "root", "tmpl:t2"},
                                                     t \in Targets \ {<<"path", "t2", "b", "">>, <<"xipc", "", "", "">>}}
     [] Size = "large" -> {Out(l, "x", t, "default") : l \in OutLevels \ {"role:t3", "role:t1"}, t \in Targets}
-    [] OTHER -> {Out(l, "x", t, tr) : l \in OutLevels, t \in Targets, tr \in {"default", "zeromq"}}
+    \* (targets that dangle by construction get one transport variant only: fewer of them in the sample)
+    [] OTHER -> {Out(l, "x", t, tr) : l \in OutLevels, t \in Targets \ BadTargets, tr \in {"default", "zeromq", "shmem"}}
+                \cup {Out(l, "x", t, "default") : l \in OutLevels, t \in BadTargets}
 
 Ob2Dom ==
   CASE Size = "core" ->
